@@ -24,6 +24,10 @@ C07_JOBS = [
     job('c07-eventthread-asan', 'asan', 'c07', {'quick': 1, 'thorough': 2}, ['schedule_completed', 'virtual_time_advanced']),
 ]
 
+C06_JOBS = [
+    job('c06-eventthread-termination', 'asan', 'c06', {'quick': 1, 'thorough': 2}, ['schedule_completed', 'virtual_time_advanced']),
+]
+
 PLANS = {
     'C11': {'level': 'model_checking', 'rule': RULE, 'assumptions': ASSUME, 'targets': ['bin/exb_tsan', 'bin/exb_asan'],
             'deadline': {'quick': 420, 'thorough': 2700}, 'jobs': C11_JOBS},
